@@ -75,17 +75,45 @@ run, key) — its "E" is `enable_queries()` followed, when it found queries disa
 the probe's own `_invalidate_cache()`.  `sched` is the list of picks; whatever is still
 unfinished afterwards runs freely ("drained").  Observed: see model/CachesInvalTie.v.
 
+REAL-TERMINAL HISTORIES (a history with a "real" part: {"COLUMNS": str | null, "LINES": str |
+null}): the library's OWN `utils.get_terminal_size()` (the function object of $VERIF_REPO's
+utils.py, kept from before anything was replaced) produces the cache key: `utils._tty_fd` is the
+slave side of a fresh pty whose window (cells AND pixels) is set with TIOCSWINSZ — at the start,
+at every "R" op and when a resize lands in the probe's body —, the ioctl of `get_cell_size` is
+the real one on that pty (when the scripted terminal reports pixel sizes through it), and the
+process environment holds COLUMNS / LINES as given (absent when null); the op ["ENV", c, l]
+changes them in mid-history.  Queries still go to the scripted terminal.  The TWIN is NOT given
+the function under test nor the environment: it computes for the window the driver has set.
+
+HAND-OVER SCHEDULES ({"hand": {...}}): 2-3 real threads run programs of ["T", b]
+(enable_/disable_win_size_swap(), or — kind "queries" — enable_queries()) / ["G"]
+(get_cell_size()) / ["S"] (the library's `_process_start_wrapper`, i.e. what
+`multiprocessing.Process.start` is replaced by when there is an active terminal, around a start
+that does not fork) under the cooperative scheduler.  `utils._cell_size_lock` is a REAL RLock
+(a subclass instance: `isinstance(lock, utils._rlock_type)` holds) that parks a controlled
+thread when it is about to acquire from outside ("acq"; a pick that finds it taken leaves the
+thread there), has acquired ("held") and is about to release completely ("rel");
+`utils._cell_size_cache` is a list that parks a getter before it stores; `utils.Array` is
+replaced by a factory that parks before ("copy") and after ("copied") it copies its argument
+into a stand-in for the shared array, whose `get_lock()` parks ("getlock") and returns a second
+lock of the same reporting kind; `get_cell_size` also parks inside its ioctl ("read": the flag is
+not read yet).  Observed: see model/CachesHandTie.v.
+
 Modes (stdin JSON):  list of cases -> list of results;  a case is either a history
-({"env", "t0", "ops"}), a thread race ({"threads": n, "fn": ...}), a probe history, a
-swap schedule, an invalidation schedule, or a request for a fresh computation in this
+({"env", "t0", "ops"} [+ "real"]), a thread race ({"threads": n, "fn": ...}), a probe history, a
+swap schedule, an invalidation schedule, a hand-over schedule, or a request for a fresh computation in this
 (new) interpreter ({"fresh": ...}).
 """
+import fcntl as real_fcntl
 import importlib.util
 import json
 import os
+import pty
+import struct
 import sys
 import threading
 import time
+import types
 import warnings
 
 REPO = os.environ.get("VERIF_REPO", "/repo")
@@ -104,6 +132,11 @@ from term_image import _ctlseqs as ctl  # noqa: E402
 
 assert term_image.__file__.startswith(SRC), term_image.__file__
 assert "tests" not in sys.modules
+
+# the library's OWN get_terminal_size(), before anything is replaced (`tests` was never imported:
+# every module that imported it by name holds this very function, too)
+REAL_GET_TERMINAL_SIZE = U.get_terminal_size
+assert REAL_GET_TERMINAL_SIZE.__module__ == "term_image.utils"
 
 FAKE_FD = 1000
 FAULT_MARK = "c15-injected-fault"
@@ -129,6 +162,8 @@ class Term:
         self.fired = 0
         self.resize_in_body = None  # armed resize: the size the terminal gets while the probe's body runs
         self.resized_in_body = 0
+        self.real_fd = None  # real-terminal histories: the slave side of the pty that is the active terminal
+        self.ioctl_park = None  # hand-over schedules: called inside every ioctl of get_cell_size
 
     def fire(self, where):
         """Raise the armed fault if `where` is its firing point (one shot)."""
@@ -220,17 +255,17 @@ class TermiosShim:
             setattr(self, k, getattr(real_termios, k))
 
     def tcgetattr(self, fd):
-        assert fd == FAKE_FD, fd
+        assert fd in (FAKE_FD, self.term.real_fd), fd
         return [0, 0, 0, real_termios.ECHO | real_termios.ICANON, 0, 0, [b"\0"] * 32]
 
     def tcsetattr(self, fd, when, attr):
-        assert fd == FAKE_FD, fd
+        assert fd in (FAKE_FD, self.term.real_fd), fd
         if when == real_termios.TCSAFLUSH:
             self.term.fire("flush")
             self.term.pending = b""
 
     def tcdrain(self, fd):
-        assert fd == FAKE_FD, fd
+        assert fd in (FAKE_FD, self.term.real_fd), fd
 
 
 class FcntlShim:
@@ -238,12 +273,18 @@ class FcntlShim:
         self.term, self.counters = term, counters
 
     def ioctl(self, fd, req, buf, *a):
-        assert fd == FAKE_FD and req == real_termios.TIOCGWINSZ, (fd, req)
-        self.counters["cs"] += 1
         t = self.term
+        assert fd in (FAKE_FD, t.real_fd) and req == real_termios.TIOCGWINSZ, (fd, req)
+        self.counters["cs"] += 1
         hook, t.ioctl_hook = getattr(t, "ioctl_hook", None), None
         if hook:  # swap schedules: another thread gets to run while this one is inside get_cell_size's lock region
             hook()
+        if t.ioctl_park:
+            t.ioctl_park()
+        if t.real_fd is not None and t.env["io"]:
+            # real-terminal histories: the window size as the pty's own ioctl reports it
+            assert fd == t.real_fd, fd
+            return real_fcntl.ioctl(fd, req, buf, *a)
         if not t.env["io"]:
             if t.pres & 8:
                 raise OSError(25, "Inappropriate ioctl for device")
@@ -392,7 +433,49 @@ def run_history(case):
     reset_primary()
     term = Term(env, size)
     counters = {"cs": 0, "col": 0, "nv": 0, "ts": 0}
-    install(U, term, counters)
+    real = case.get("real")
+    saved_penv = {k: os.environ.get(k) for k in ("COLUMNS", "LINES")}
+    master = slave = None
+    if real is not None:
+        assert env["tty"], "a real-terminal history needs an active terminal"
+        master, slave = pty.openpty()
+        term.real_fd = slave
+
+    def set_window():
+        """TIOCSWINSZ: the pty's window becomes the scripted terminal's size (cells and pixels)"""
+        if real is not None:
+            real_fcntl.ioctl(slave, real_termios.TIOCSWINSZ, struct.pack("HHHH", term.rows, term.cols, term.xpx, term.ypx))
+
+    def set_penv(cols, lines):
+        for k, v in (("COLUMNS", cols), ("LINES", lines)):
+            if v is None:
+                os.environ.pop(k, None)
+            else:
+                os.environ[k] = str(v)
+
+    def reinstall():
+        install(U, term, counters)
+        if real is not None:
+            # the active terminal is the pty; the library's OWN function produces the cache key
+            U._tty_fd = slave
+            U.get_terminal_size = REAL_GET_TERMINAL_SIZE
+
+    try:
+        return _run_history(case, env, term, counters, real, set_window, set_penv, reinstall)
+    finally:
+        set_penv(saved_penv["COLUMNS"], saved_penv["LINES"])
+        if real is not None:
+            U._tty_fd = -1
+        for fd in (master, slave):
+            if fd is not None:
+                os.close(fd)
+
+
+def _run_history(case, env, term, counters, real, set_window, set_penv, reinstall):
+    reinstall()
+    set_window()
+    if real is not None:
+        set_penv(real.get("COLUMNS"), real.get("LINES"))
     assert term_image.get_cell_size is U.get_cell_size  # the real one, bound at import
 
     def ts_body():
@@ -402,6 +485,7 @@ def run_history(case):
             term.cols, term.rows, term.xpx, term.ypx = term.resize_in_body
             term.resize_in_body = None
             term.resized_in_body += 1
+            set_window()
         return value  # ... and it returns what it computed
 
     ts_probe = U.terminal_size_cached(ts_body)
@@ -414,6 +498,10 @@ def run_history(case):
         swap, qen = U._swap_win_size, U._queries_enabled
         if k == "R":
             term.cols, term.rows, term.xpx, term.ypx = op[1:5]
+            set_window()
+        elif k == "ENV":
+            assert real is not None, op
+            set_penv(op[1], op[2])
         elif k == "ES":
             term_image.enable_win_size_swap()
         elif k == "DS":
@@ -486,7 +574,7 @@ def run_history(case):
             fr_cur = fresh(kind, targs, swap, qen, key)
             # (with queries enabled now this is the very same computation: not repeated)
             fr_en = list(fr_cur) if qen else fresh(kind, targs, swap, True, key)
-            install(U, term, counters)  # os.environ was rewritten by the twin (same values)
+            reinstall()  # os.environ was rewritten by the twin (same values)
         rows.append({"obs": obs, "fc": fr_cur, "fe": fr_en,
                      "n": [counters["cs"], counters["col"], counters["nv"], counters["ts"]]})
     final = {"t": [term.cols, term.rows, term.xpx, term.ypx], "swap": int(U._swap_win_size),
@@ -1101,6 +1189,214 @@ def run_inval(case):
             "distinct": int(all(fdis[k] != fen[k] for k in keys))}
 
 
+# ---------------------------------------------------------------- hand-over schedules
+
+
+class HandLock(_RLOCK_T):
+    """A lock object of the hand-over schedules: a REAL re-entrant lock (a subclass of the type
+    `utils._rlock_type` tests for).  A controlled thread parks when it is about to acquire from
+    outside ("acq"), when it has acquired ("held") and when it is about to release completely
+    ("rel").  It never blocks under the scheduler: a pick that finds the lock taken leaves the
+    thread parked at "acq" — on THIS object, whatever the module global names by then."""
+
+    def __new__(cls, coop, name):
+        return super().__new__(cls)
+
+    def __init__(self, coop, name):
+        self.coop, self.name = coop, name
+        self._depth = {}
+
+    def acquire(self, blocking=True, timeout=-1):
+        me = threading.get_ident()
+        i = self.coop.me()
+        if i is None or self.coop.free or self._depth.get(me):
+            got = super().acquire(blocking, timeout)
+            if got:
+                self._depth[me] = self._depth.get(me, 0) + 1
+            return got
+        self.coop.point("acq")
+        while True:
+            if self.coop.free:
+                super().acquire()
+                break
+            if super().acquire(False):
+                break
+            self.coop.point("acq")
+        self._depth[me] = 1
+        self.coop.point("held")
+        return True
+
+    def release(self):
+        me = threading.get_ident()
+        if self.coop.me() is not None and self._depth.get(me) == 1:
+            self.coop.point("rel")
+        self._depth[me] -= 1
+        super().release()
+
+    def __enter__(self):
+        self.acquire()
+        return self
+
+    def __exit__(self, *exc):
+        self.release()
+
+
+class HandList(list):
+    """`utils._cell_size_cache`: a controlled thread executing get_cell_size() parks before it stores."""
+
+    coop = None
+
+    def __setitem__(self, key, value):
+        i = self.coop.me()
+        if i is not None and self.coop.cmd[i] == "G":
+            self.coop.point("store")
+        list.__setitem__(self, key, value)
+
+
+class SharedStub(HandList):
+    """Stands for the `multiprocessing.Array` of the hand-over (nothing is forked here): same
+    indexing / slicing protocol, and a lock of its own behind `get_lock()`."""
+
+    lock = None
+
+    def get_lock(self):
+        self.coop.point("getlock")  # the cache global is rebound; the lock global not yet
+        return self.lock
+
+
+_fresh_memo2 = {}
+
+
+def fresh_cs2(env, size, swap, qen):
+    k = json.dumps([env, size, swap, qen], sort_keys=True)
+    if k not in _fresh_memo2:
+        _fresh_memo2[k] = fresh("CS", (env, list(size)), swap, qen)
+    return _fresh_memo2[k]
+
+
+def run_hand(case):
+    hd = case["hand"]
+    env, size, kind = hd["env"], list(hd["t0"]), hd.get("kind", "swap")
+    progs, sched = hd["progs"], hd["sched"]
+    if kind == "swap":
+        ref = [fresh_cs2(env, size, False, True), fresh_cs2(env, size, True, True)]
+    else:  # the flag is `_queries_enabled`
+        ref = [fresh_cs2(env, size, False, False), fresh_cs2(env, size, False, True)]
+        assert hd["f0"] == 0 and all(c[0] != "T" or c[1] for p in progs for c in p), "queries: enable_queries() only"
+    reset_primary()
+    term = Term(env, size)
+    counters = {"cs": 0, "col": 0, "nv": 0}
+    install(U, term, counters)
+
+    def code(v):
+        v = enc_cs(v) if not isinstance(v, list) else v
+        return 0 if v == [0] else 1 if v == ref[0] else 2 if v == ref[1] else 3
+
+    def set_flag(b):
+        if kind == "swap":
+            U._swap_win_size = bool(b)
+        else:
+            U._queries_enabled = bool(b)
+
+    def get_flag():
+        return int(bool(U._swap_win_size if kind == "swap" else U._queries_enabled))
+
+    coop = Coop(len(progs))
+    errs = []
+    saved = {k: getattr(U, k) for k in ("_cell_size_lock", "_cell_size_cache", "_tty_lock", "Array", "mp_RLock")}
+    saved_wrapped = getattr(U._process_start_wrapper, "__wrapped__", None)
+    old_lock = HandLock(coop, "old")
+    old_cache = HandList([0] * 4)
+    old_cache.coop = coop
+    shared = []
+
+    def array_stub(typecode, init):
+        coop.point("copy")  # about to copy the cache entry into the shared array
+        a = SharedStub(list(init))
+        a.coop, a.lock = coop, HandLock(coop, "new")
+        shared.append(a)
+        coop.point("copied")  # the array exists; the rebinding of the cache global is ahead
+        return a
+
+    started = []
+    rets = [[] for _ in progs]
+
+    def worker(i):
+        coop.register(i)
+        try:
+            for cmd in progs[i]:
+                coop.cmd[i] = cmd[0]
+                coop.point("idle")
+                if cmd[0] == "T":
+                    if kind == "swap":
+                        (term_image.enable_win_size_swap if cmd[1] else term_image.disable_win_size_swap)()
+                    else:
+                        term_image.enable_queries()
+                elif cmd[0] == "G":
+                    rets[i].append(code(U.get_cell_size()))
+                elif cmd[0] == "S":
+                    U._process_start_wrapper(types.SimpleNamespace())
+                else:
+                    raise AssertionError(cmd)
+        except BaseException as exc:  # noqa: B902
+            errs.append("thread %d: %r" % (i, exc))
+        finally:
+            coop.cmd[i] = None
+            coop.finish(i)
+
+    drained = stuck = 0
+    try:
+        U._cell_size_lock, U._cell_size_cache = old_lock, old_cache
+        U.Array = array_stub
+        U.mp_RLock = threading.RLock  # (the tty lock's hand-over: no semaphore is created for a start that does not fork)
+        U._process_start_wrapper.__wrapped__ = lambda self, *a, **kw: started.append(self)
+        set_flag(hd["f0"])
+        if hd["warm"]:
+            U.get_cell_size()
+        n0 = counters["cs"]
+        term.ioctl_park = lambda: coop.point("read")  # get_cell_size computes; the flag is not read yet
+        ths = [threading.Thread(target=worker, args=(i,), daemon=True) for i in range(len(progs))]
+        for t in ths:
+            t.start()
+        for i in range(len(progs)):
+            if coop.wait_parked(i) is None:
+                stuck += 1
+        for t in sched:
+            if stuck or all(coop.at[i] == "done" for i in range(len(progs))):
+                break
+            if coop.pick(t) is None:
+                stuck += 1
+        drained = sum(coop.at[i] != "done" for i in range(len(progs)))
+        coop.free_run()
+        for t in ths:
+            t.join(20)
+        if any(t.is_alive() for t in ths):
+            errs.append("threads still alive after the free run")
+        ncomp = counters["cs"] - n0
+        flag = get_flag()
+        cache = list(U._cell_size_cache)
+        ccode = 0 if cache == [0] * 4 else code([1] + cache[2:]) if cache[:2] == size[:2] else 3
+        is_shared = int(isinstance(U._cell_size_cache, SharedStub))
+        lock_shared = int(bool(shared) and U._cell_size_lock is shared[0].lock)
+        # a call made AFTER all threads have finished
+        after = enc_cs(U.get_cell_size())
+    finally:
+        coop.free_run()
+        for k, v in saved.items():
+            setattr(U, k, v)
+        if saved_wrapped is None:
+            U._process_start_wrapper.__dict__.pop("__wrapped__", None)
+        else:
+            U._process_start_wrapper.__wrapped__ = saved_wrapped
+        term.ioctl_park = None
+    fr = fresh_cs2(env, size, bool(flag), True) if kind == "swap" else fresh_cs2(env, size, False, bool(flag))
+    install(U, term, counters)
+    return {"flag": flag, "cache": ccode, "shared": is_shared, "lockshared": lock_shared, "rets": rets, "ncomp": ncomp,
+            "after": after, "fresh": fr, "drained": drained, "stuck": stuck, "errors": errs, "trace": coop.trace,
+            "distinct": int(ref[0] != ref[1] and [0] not in ref[1:]), "raw_cache": cache, "ref": ref,
+            "starts": len(started), "arrays": len(shared)}
+
+
 # ------------------------------------------------------------- new-interpreter fresh
 
 
@@ -1130,6 +1426,8 @@ def run_case(case):
         return run_swap(case)
     if "inval" in case:
         return run_inval(case)
+    if "hand" in case:
+        return run_hand(case)
     if "threads" in case:
         return run_threads(case)
     return run_history(case)
